@@ -6,6 +6,7 @@ import (
 	"strings"
 
 	"github.com/tuneinsight/lattigo/v6/core/rlwe"
+	"github.com/tuneinsight/lattigo/v6/schemes/bgv"
 
 	"verif/engine"
 	"verif/lib/cklib"
@@ -63,13 +64,13 @@ func isNilDeref(pan interface{}) bool {
 
 func isPow2(x int) bool { return x > 0 && x&(x-1) == 0 }
 
-func sumsScenario(w *world) engine.Scenario {
-	name := "sums/" + w.name
+// sumsScenario: one scenario per (world, method) so that the large rings spread over the workers.
+func sumsScenario(w *world, mi int) engine.Scenario {
+	name := "sums/" + w.name + "/" + sumMethods[mi]
 	ps := sumPairs(w.rowLen)
 	return engine.Scenario{Name: name, Bound: -1, Fn: func(c *engine.Chooser) {
 		w.ensure(c)
 		pi := c.Choose(len(ps), "pair")
-		mi := c.Choose(len(sumMethods), "method")
 		uni.Seed(c, name, pi, mi)
 		p, method := ps[pi], sumMethods[mi]
 		batch, n := p.batch, p.n
@@ -293,5 +294,59 @@ func averageScenario(w *world) engine.Scenario {
 		}
 		c.Cover("sum", "Average")
 		c.Outcome(name, fmt.Sprint(lb), wr)
+	}}
+}
+
+// userFunctionScenario (BGV): InnerFunction with a user function that is not an addition: f = MulRelin, so the
+// leftmost sub-vector of every group must hold the slot-wise *product* of the group's n sub-vectors ("the
+// pair-wise recursive evaluation of function over the group"; multiplication mod t is associative and
+// commutative, so the documented tree order does not matter). Exact mod t.
+func userFunctionScenario(w *world) engine.Scenario {
+	name := "userfn/" + w.name
+	var ps []pair
+	for b := 1; b <= w.rowLen; b++ {
+		for n := 1; n <= 4 && n*b <= w.rowLen; n++ {
+			ps = append(ps, pair{b, n})
+		}
+	}
+	return engine.Scenario{Name: name, Bound: -1, Fn: func(c *engine.Chooser) {
+		w.ensure(c)
+		pi := c.Choose(len(ps), "pair")
+		uni.Seed(c, name, pi)
+		p := ps[pi]
+		re, im := w.ramp()
+		kg := rlwe.NewKeyGenerator(w.rp)
+		rlk := kg.GenRelinearizationKeyNew(w.sk, w.evp...)
+		list := rlwe.GaloisElementsForInnerSum(w.rp, p.batch, p.n)
+		evk := rlwe.NewMemEvaluationKeySet(rlk, w.galoisKeys(list)...)
+		ev := bgv.NewEvaluator(w.bp, evk)
+		calls := 0
+		f := func(a, b, cc *rlwe.Ciphertext) error { calls++; return ev.MulRelin(a, b, cc) }
+		ct := w.encrypt(re, im)
+		out := ct.CopyNew()
+		if err, pan := uni.Try(func() error { return ev.InnerFunction(ct, p.batch, p.n, f, out) }); err != nil || pan != nil {
+			c.Fail("C11/bgv/InnerFunction-product/failed-with-advertised-keys", "%s: batch=%d n=%d err=%v panic=%v", w.name, p.batch, p.n, err, pan)
+			return
+		}
+		t := int64(w.t)
+		want := make([]int64, len(re))
+		l := p.batch * p.n
+		mask := leftmostMask(w.rows, w.rowLen, p.batch, p.n)
+		for r := 0; r < w.rows; r++ {
+			for g := 0; (g+1)*l <= w.rowLen; g++ {
+				for j := 0; j < p.batch; j++ {
+					prod := int64(1)
+					for i := 0; i < p.n; i++ {
+						prod = prod * re[r*w.rowLen+g*l+i*p.batch+j] % t
+					}
+					want[r*w.rowLen+g*l+j] = prod
+				}
+			}
+		}
+		if !w.compare(c, "C11/bgv/InnerFunction-product/value", out, want, im, mask, budget{terms: 1, ks: 1, div: 1}) {
+			return
+		}
+		c.Cover("sum", "InnerFunction-product")
+		c.Outcome(name, p.batch, p.n, want, calls)
 	}}
 }
